@@ -52,6 +52,11 @@ def check_clock(y, T_exp, rate_exp, L_exp, k_ops, offset_s, n_steps, what):
         check(y.start_time is not None, "{}: start_time lost", what)
         d = O.T(y.stop_time) - O.T(y.start_time)
         check(abs(d) <= O.time_tol(1), "{}: empty signal but stop_time - start_time = {} s", what, float(d))
+        # the half-open interval [start, stop) of an empty signal is empty: nothing is contained, not even its own start time
+        with lib("contains (empty signal)"):
+            c1, c3 = y.contains(y.start_time), (y.start_time in y)
+            c2 = y.contains(y.start_time + np.array([0.0, 1e-12, -1e-12]) * u.s)
+        check(not bool(c1) and not c3 and not np.any(c2), "{}: an empty signal reports its own start time as contained", what)
         return
     assert_start(y, T_exp, k=k_ops, offset_s=offset_s, what=what + ": ")
     span = L_exp / r
@@ -186,7 +191,14 @@ class Pipe:
                 self.T = self.T + dropped / self.r
             self.off += abs(F(dropped) / self.r)
         elif self.T is not None and y.start_time is not None:
-            self.T = O.T(y.start_time)  # empty result: only consistency is asserted from here on
+            # empty result: its (empty) interval lies within the span of what it was cut from -- all L samples dropped puts it at the
+            # stop time at the latest
+            got = O.T(y.start_time)
+            lo, hi = self.T, self.T + F(self.L) / self.r
+            tol = O.time_tol(self.nops + 2, F(self.L) / self.r)
+            check(lo - tol <= got <= hi + tol, "{}: the empty result starts {} s after its input's start, outside the input's span of {} s", what,
+                  float(got - lo), float(hi - lo))
+            self.T = got  # from here on only consistency is asserted
         if step > 1:
             self.r = self.r / step
             self.nsteps += 1
@@ -315,6 +327,14 @@ class Pipe:
         self.nops += 1
         check_clock(self.z, self.T, self.r, self.L, self.nops, self.off, self.nsteps, f"op{self.nops}:sample_rate *= {fac}")
         self.st.label("op_set_rate")
+
+    def op_refused(self, pick):
+        """an invalid attribute assignment on the current object: refused, and the clock is exactly what it was"""
+        with lib("refused assignment"):
+            attr = G.bad_assign(self.z, pick, prefer="start_time")
+        self.nops += 1
+        check_clock(self.z, self.T, self.r, self.L, self.nops, self.off, self.nsteps, f"op{self.nops}:refused assignment of {attr}")
+        self.st.label("op_refused_assignment")
 
     def op_set_start(self, t0):
         t = G.mk_time(t0)
@@ -484,6 +504,10 @@ class PipeMachine(HistoryMachine):
     @rule(t0=G.time0())
     def set_start(self, t0):
         self.do(["set_start", t0])
+
+    @rule(pick=st.integers(0, 1000))
+    def refused(self, pick):
+        self.do(["refused", pick])
 
     @precondition(lambda self: self.model.spec["cls"] in G.BASEBAND and self.model.L >= 2)
     @rule(dm=st.tuples(st.sampled_from([-1, 1]), st.floats(-4, 3)).map(lambda t: t[0] * 10 ** t[1]),
